@@ -158,6 +158,17 @@ impl<T> M2Array<T> {
     }
 }
 
+/// Number of input bytes from `offset` to the end (the reader is left at `offset`)
+fn remaining_input<R: Read + Seek>(reader: &mut R, offset: u64) -> Result<u64> {
+    let end = reader
+        .seek(std::io::SeekFrom::End(0))
+        .map_err(M2Error::Io)?;
+    reader
+        .seek(std::io::SeekFrom::Start(offset))
+        .map_err(M2Error::Io)?;
+    Ok(end.saturating_sub(offset))
+}
+
 /// Reads data at an array reference location
 pub fn read_array<T, R, F>(reader: &mut R, array: &M2Array<T>, parse_fn: F) -> Result<Vec<T>>
 where
@@ -172,6 +183,16 @@ where
     reader
         .seek(std::io::SeekFrom::Start(array.offset as u64))
         .map_err(M2Error::Io)?;
+
+    // Every element takes at least one byte of input: a count beyond the rest of the
+    // input cannot be satisfied and must not size an allocation
+    let remaining = remaining_input(reader, array.offset as u64)?;
+    if array.count as u64 > remaining {
+        return Err(M2Error::ParseError(format!(
+            "Array of {} elements at offset {} exceeds the input",
+            array.count, array.offset
+        )));
+    }
 
     // Read each element
     let mut result = Vec::with_capacity(array.count as usize);
@@ -198,7 +219,15 @@ pub fn read_raw_bytes<R: Read + Seek>(
         .map_err(M2Error::Io)?;
 
     // Read raw bytes
-    let total_bytes = array.count as usize * element_size;
+    let total_bytes = (array.count as usize)
+        .checked_mul(element_size)
+        .ok_or_else(|| M2Error::ParseError("Array size overflows".to_string()))?;
+    if total_bytes as u64 > remaining_input(reader, array.offset as u64)? {
+        return Err(M2Error::ParseError(format!(
+            "Array of {} bytes at offset {} exceeds the input",
+            total_bytes, array.offset
+        )));
+    }
     let mut data = vec![0u8; total_bytes];
     reader.read_exact(&mut data).map_err(M2Error::Io)?;
 
@@ -355,7 +384,12 @@ impl M2ArrayString {
     pub fn parse<R: Read + Seek>(reader: &mut R) -> Result<Self> {
         let array = M2Array::<u8>::parse(reader)?;
         let current_pos = reader.stream_position()?;
-        reader.seek(SeekFrom::Start(array.offset as u64))?;
+        if array.count as u64 > remaining_input(reader, array.offset as u64)? {
+            return Err(M2Error::ParseError(format!(
+                "String of {} bytes at offset {} exceeds the input",
+                array.count, array.offset
+            )));
+        }
         let string = FixedString::parse(reader, array.count as usize)?;
         reader.seek(SeekFrom::Start(current_pos))?;
         Ok(Self { string, array })
